@@ -158,7 +158,7 @@ def assert_bundle_attr(b: "Bundle", val: Any) -> None:
         raise TypeError(msg)
 
 
-_banned = ["signals", "bundles", "namespace"]
+_banned = ["signals", "bundles", "namespace", "props", "add", "get", "Roles"]
 
 
 @attrmagic.init
